@@ -200,7 +200,16 @@ def run(repo, rep, tier):
     # make_histograms forwards its spec parameters
     ctor = None
     for n in walk_local_stmt(make.node):
-        if isinstance(n, ast.Assign) and isinstance(n.value, ast.Call) and isinstance(n.value.func, ast.Name) and n.value.func.id == "cls":
+        # the local that holds the filler class: assigned from an expression mentioning a *Histogrammar class, then called
+        pass
+    cls_locals = set()
+    for n in walk_local_stmt(make.node):
+        if isinstance(n, ast.Assign) and len(n.targets) == 1 and isinstance(n.targets[0], ast.Name) and any(
+                isinstance(x, ast.Name) and x.id.endswith("Histogrammar") for x in ast.walk(n.value)) and not isinstance(n.value, ast.Call):
+            cls_locals.add(n.targets[0].id)
+    for n in walk_local_stmt(make.node):
+        if isinstance(n, ast.Assign) and isinstance(n.value, ast.Call) and isinstance(n.value.func, ast.Name) and (
+                n.value.func.id in cls_locals or n.value.func.id.endswith("Histogrammar")):
             ctor = n.value
     if ctor is None:
         raise AnalysisError("make_histograms: filler construction `cls(...)` not found")
